@@ -22,6 +22,7 @@ From PTK Require Import Model.Document Model.BufferEdit.
 From PTK Require Model.C09_Kill.
 From PTK Require Import Proofs.C07_Payloads Proofs.C07_KeyHistFacts.
 From PTK Require Import Model.C07_Multi Model.C07_Edit Proofs.C07_MultiFacts Proofs.C07_RoundTrip Proofs.C07_EditFacts.
+From PTK Require Import Model.C07_Edit2 Proofs.C07_Edit2Facts.
 Import ListNotations.
 Open Scope Z_scope.
 
@@ -666,6 +667,39 @@ Theorem C07_typed_run_real_text : forall h s d ds,
   here (redo (undo (kbuf s'))) = here (kbuf s').
 Proof. exact typed_run_real_text. Qed.
 Print Assumptions C07_typed_run_real_text.
+
+(* ---- kills, yanks and Vi operators as computed commands (round 7) ---- *)
+
+(* Model/C07_Edit2.v: a command may also name a command of C09's model
+   (kill-line, kill-word, unix-word-rubout, backward-kill-word,
+   unix-line-discard, yank, yank-pop; Vi x X D dd yy p P; Vi Escape): its text
+   is C09_Kill.exec on the text the buffer holds, with the kill ring C09's state
+   carries and is_repeat as this key model computes it.  Still a key session: *)
+Theorem C07_edit2_session_is_key_session : forall tbl cs e,
+  ek (e2run tbl e cs) = krun tbl (ek e) (e2compile tbl e cs).
+Proof. exact e2run_is_krun. Qed.
+Print Assumptions C07_edit2_session_is_key_session.
+
+(* C07_edit_undo_lands_on_computed_text extended to them *)
+Theorem C07_edit2_undo_lands_on_computed_text : forall t0 c0 cs,
+  0 <= c0 <= len t0 ->
+  let s := kbuf (ek (e2run c07_rows (e2fresh t0 c0) cs)) in
+  let past := e2history t0 c0 cs in
+  subseq (ustack s) past /\
+  ((utext (undo s) = utext s /\ ucur (undo s) = ucur s /\ ustack (undo s) = [])
+   \/
+   (exists newer older,
+      past = newer ++ here (undo s) :: older /\ utext (undo s) <> utext s /\
+      subseq (ustack (undo s)) older /\ rstack (undo s) = here s :: rstack s)).
+Proof. exact edit2_undo_lands_on_computed_text. Qed.
+Print Assumptions C07_edit2_undo_lands_on_computed_text.
+
+Theorem C07_edit2_reaches_start : forall t0 c0 cs k,
+  0 <= c0 <= len t0 -> Forall (ecmd2_valid c07_rows) cs ->
+  let s := kbuf (ek (e2run c07_rows (e2fresh t0 c0) cs)) in
+  (length (ustack s) <= k)%nat -> utext (iter_op Undo k s) = t0.
+Proof. exact edit2_reaches_start. Qed.
+Print Assumptions C07_edit2_reaches_start.
 
 (* Non-vacuity: a reachable state with two stacked snapshots and a redo entry
    is well-formed; the real table has every role. *)
